@@ -22,7 +22,7 @@ import numpy as np
 from harness import tabutil as tu
 from harness.c01 import make_compilers, tokens_of
 from harness.c02 import graph_canon, per_wire
-from harness.common import Driver, Result, err_class
+from harness.common import Driver, Result, coverage_floor, err_class, impl_guard
 
 LEVEL = "proof"
 TRUSTED_BASE = [
@@ -116,15 +116,20 @@ def traced_solve(solver):
     def on_line(c, line):
         if c is not code or line not in (l_sort, l_inner):
             return
-        loc = sys._getframe(1).f_locals
-        if line == l_inner:
-            iso = loc.get("iso_graph")
-            if id(iso) not in seen:
-                seen.add(id(iso))
-                cap["isos"].append(dict(iso=nx.to_numpy_array(iso).astype(int), lcs=list(loc.get("lc_graphs")), rmap=dict(loc.get("rmap"))))
-        elif cap["pre"] is None:
-            cap["pre"] = dict(adj_list=[np.asarray(a).astype(int) for a in loc["adj_list"]], sets=[list(x) for x in loc["set_list"]],
-                              red=list(loc["redundant_indices"]), results=list(loc["results_list"]))
+        # an observer must never raise into solve(): a renamed local of a refactored solve() would otherwise surface as
+        # "solve raised KeyError"; it is recorded and reported as a lost observation instead
+        try:
+            loc = sys._getframe(1).f_locals
+            if line == l_inner:
+                iso = loc.get("iso_graph")
+                if id(iso) not in seen:
+                    seen.add(id(iso))
+                    cap["isos"].append(dict(iso=nx.to_numpy_array(iso).astype(int), lcs=list(loc.get("lc_graphs")), rmap=dict(loc.get("rmap"))))
+            elif cap["pre"] is None:
+                cap["pre"] = dict(adj_list=[np.asarray(a).astype(int) for a in loc["adj_list"]], sets=[list(x) for x in loc["set_list"]],
+                                  red=list(loc["redundant_indices"]), results=list(loc["results_list"]))
+        except Exception as e:  # noqa: BLE001
+            cap["observer_error"] = f"{type(e).__name__}: {e}"[:200]
 
     mon.use_tool_id(tool, "verif-c10")
     try:
@@ -135,7 +140,7 @@ def traced_solve(solver):
         mon.set_local_events(tool, code, 0)
         mon.register_callback(tool, mon.events.LINE, None)
         mon.free_tool_id(tool)
-    return out, (cap if cap["pre"] is not None else None)
+    return out, (cap if cap["pre"] is not None and "observer_error" not in cap else None)
 
 
 def check_assembly(res, inp, n, out, cap, pending):
@@ -167,7 +172,8 @@ def check_assembly(res, inp, n, out, cap, pending):
         maps = [lab(iso["rmap"]) for iso in cap["isos"]]
         lcs = [",".join(tu.bits(nx.to_numpy_array(lc).astype(int)) for lc in iso["lcs"]) or "-" for iso in cap["isos"]]
     except Exception:  # noqa: BLE001 (a map that is not total on the vertices is reported by the entry checks)
-        return
+        res.count("errors", "assembly-not-encodable")
+        return False
     # side conditions of C10.alternate_target_result_sound, evaluated directly on the observed parts
     adj_t = tu.unbits(inp["adjacency"], (n, n))
     for i, iso in enumerate(cap["isos"]):
@@ -194,6 +200,7 @@ def check_assembly(res, inp, n, out, cap, pending):
                  maps=[lab(e[1]["map"]) for e in out])
     pending.append((f"alt.solve n={n} isos={';'.join(tu.bits(iso['iso']) for iso in cap['isos'])} lcs={';'.join(lcs)} maps={';'.join(maps)} pick={pick_tok}",
                     dict(inp, impl=impl2, what="loops")))
+    return True
 
 
 def check_relabel(ctx, res, drv, pending):
@@ -259,16 +266,35 @@ def run_setting(ctx, res, drv, adj, kw, seed, pending, default=False, scramble=F
             return
         res.violation(f"solve:raises:{err_class(e)}", f"AlternateTargetSolver raised {err_class(e)}: {str(e)[:150]}", input=inp)
         return
-    res.branch([f"entries={min(len(out), 9)}", f"method={kw.get('lc_method')}"])
+    stats = res.extra.setdefault("assembly_observation", {"solved": 0, "observed": 0})
+    stats["solved"] += 1
+    try:
+        out = list(out)
+        res.branch([f"entries={min(len(out), 9)}", f"method={kw.get('lc_method')}"])
+    except Exception as e:  # noqa: BLE001 — the property is about the entries of the result: a result that is not a list of entries is a violation
+        res.violation("result:not-a-list-of-entries", f"solve() returned {type(out).__name__}, not a list of (circuit, info) entries ({err_class(e)})", input=inp)
+        return
     if cap is not None:
-        check_assembly(res, inp, n, out, cap, pending)
+        # counted as observed only when the loops were also handed to the model (check_assembly gives up on maps it cannot encode)
+        try:
+            if check_assembly(res, inp, n, out, cap, pending):
+                stats["observed"] += 1
+        except Exception as e:  # noqa: BLE001 — the observed loop state / the entries are not shaped as solve() builds them today
+            res.exact_break(f"solve:assembly-unreadable:{err_class(e)}", input=inp, impl=f"{type(e).__name__}: {e}"[:200],
+                            model="entries (circuit, {'g', 'map', ...}) built from the observed isomorphs and LC graphs")
     else:
         res.count("errors", "assembly-not-observed")
     graphs = []
-    for k, (circuit, info) in enumerate(out):
-        # get_relabel_map marks the identity map with an extra entry {-1: "self"}; the map proper is on the vertices
-        rmap = {a: b for a, b in info["map"].items() if a != -1}
+    for k, entry in enumerate(out):
         einp = dict(inp, entry=k)
+        try:
+            circuit, info = entry
+            # get_relabel_map marks the identity map with an extra entry {-1: "self"}; the map proper is on the vertices
+            rmap = {a: b for a, b in info["map"].items() if a != -1}
+            info["g"].nodes()
+        except Exception as e:  # noqa: BLE001
+            res.violation("entry:malformed", f"result entry is not (circuit, {{'g': graph, 'map': dict, ...}}): {err_class(e)}", input=einp)
+            continue
         if sorted(rmap.keys()) != list(range(n)) or sorted(rmap.values()) != list(range(n)):
             res.violation("entry:map-not-permutation", f"relabel map {rmap} is not a permutation of the vertices", input=einp)
             continue
@@ -282,8 +308,12 @@ def run_setting(ctx, res, drv, adj, kw, seed, pending, default=False, scramble=F
         except Exception as e:  # noqa: BLE001
             res.violation("entry:invalid-circuit", f"circuit does not validate: {err_class(e)}", input=einp)
             continue
-        ne, np_ = circuit.n_emitters, circuit.n_photons
-        toks, _ = tokens_of(circuit)
+        try:
+            ne, np_ = circuit.n_emitters, circuit.n_photons
+            toks, _ = tokens_of(circuit)
+        except Exception as e:  # noqa: BLE001 — a validated circuit can be read (sequence(), register counts)
+            res.violation(f"entry:circuit-unreadable:{err_class(e)}", f"reading the entry's circuit raised {type(e).__name__}: {str(e)[:120]}", input=einp)
+            continue
         einp["ops"] = ",".join(toks)
         einp["map"] = str(rmap)
         # real backend
@@ -388,29 +418,38 @@ def run(ctx, budget=1.0):
     # repeater graph state and linear cluster for the scripted orbit methods
     from graphiq.benchmarks.graph_states import repeater_graph_states
 
-    special = {"rgs": [nx.to_numpy_array(repeater_graph_states(m)).astype(int) for m in (2, 3)],
-               "linear": [nx.to_numpy_array(nx.path_graph(m)).astype(int) for m in (3, 4, 5)]}
+    special = {"linear": [nx.to_numpy_array(nx.path_graph(m)).astype(int) for m in (3, 4, 5)]}
+    with impl_guard(res, "benchmarks:repeater_graph_states"):
+        special["rgs"] = [nx.to_numpy_array(repeater_graph_states(m)).astype(int) for m in (2, 3)]
     per_target = 2 if ctx.quick else 6
+    # the streams run under common.impl_guard: an exception of graphiq that no call site handles is reported, not a harness crash
     for adj in targets + extra:
-        for _ in range(per_target):
-            method = rng.choice([m for m in LC_METHODS if m not in ("rgs", "linear")])
-            kw = dict(n_iso_graphs=rng.choice([1, 2, 5]), n_lc_graphs=rng.choice([1, 3, 10]), lc_method=method,
-                      sort_emit=rng.random() < 0.5, lc_orbit_depth=rng.choice([None, 1, 2]))
-            run_setting(ctx, res, drv, adj, kw, rng.randrange(1, 1000), pending, scramble=rng.random() < 0.5)
-        if adj.shape[0] >= 3 and rng.random() < 0.5:
-            # repeats are allowed inside one orbit walk: only the final de-duplication keeps the listed graphs distinct
-            run_setting(ctx, res, drv, adj, dict(n_iso_graphs=1, n_lc_graphs=10, lc_method="random_with_rep"), rng.randrange(1, 1000), pending)
-        if rng.random() < 0.3:
-            run_setting(ctx, res, drv, adj, {}, rng.randrange(1, 1000), pending, default=True, scramble=rng.random() < 0.5)
+        with impl_guard(res, "solve", promise=True, input={"adjacency": tu.bits(adj), "n": int(adj.shape[0])}):
+            for _ in range(per_target):
+                method = rng.choice([m for m in LC_METHODS if m not in ("rgs", "linear")])
+                kw = dict(n_iso_graphs=rng.choice([1, 2, 5]), n_lc_graphs=rng.choice([1, 3, 10]), lc_method=method,
+                          sort_emit=rng.random() < 0.5, lc_orbit_depth=rng.choice([None, 1, 2]))
+                run_setting(ctx, res, drv, adj, kw, rng.randrange(1, 1000), pending, scramble=rng.random() < 0.5)
+            if adj.shape[0] >= 3 and rng.random() < 0.5:
+                # repeats are allowed inside one orbit walk: only the final de-duplication keeps the listed graphs distinct
+                run_setting(ctx, res, drv, adj, dict(n_iso_graphs=1, n_lc_graphs=10, lc_method="random_with_rep"), rng.randrange(1, 1000), pending)
+            if rng.random() < 0.3:
+                run_setting(ctx, res, drv, adj, {}, rng.randrange(1, 1000), pending, default=True, scramble=rng.random() < 0.5)
         if len(pending) > 60:
             flush(res, drv, pending)
-    for _ in range(int((60 if ctx.quick else 600) * budget)):
-        check_relabel(ctx, res, drv, pending)
+    with impl_guard(res, "relabel", promise=True):
+        for _ in range(int((60 if ctx.quick else 600) * budget)):
+            check_relabel(ctx, res, drv, pending)
     for method, adjs in special.items():
         for adj in adjs:
-            kw = dict(n_iso_graphs=rng.choice([1, 2]), n_lc_graphs=rng.choice([1, 3, 10]), lc_method=method)
-            run_setting(ctx, res, drv, adj, kw, rng.randrange(1, 1000), pending)
+            with impl_guard(res, "solve", promise=True, input={"adjacency": tu.bits(adj), "n": int(adj.shape[0]), "lc_method": method}):
+                kw = dict(n_iso_graphs=rng.choice([1, 2]), n_lc_graphs=rng.choice([1, 3, 10]), lc_method=method)
+                run_setting(ctx, res, drv, adj, kw, rng.randrange(1, 1000), pending)
     flush(res, drv, pending)
+    # the result assembly of solve() is compared with the model only when its loops could be observed (source lines found, locals
+    # readable): a refactored solve() must not silently switch that comparison off
+    st = res.extra.get("assembly_observation", {"solved": 0, "observed": 0})
+    coverage_floor(res, "solve:assembly-observed", st["observed"], st["solved"], what="successful solve() runs (loop state observed and compared with the model)")
     res.exhaustive = False
     res.notes.append(f"targets: all connected graphs on 2..{4 if ctx.quick else 5} vertices + random connected graphs + repeater/linear graphs for the scripted orbit methods")
     res.extra["driver_lines"] = drv.n_lines
